@@ -7,6 +7,14 @@ import numpy as np
 import pandas as pd
 
 from .monitors import same_bits, digest
+
+
+def same_times(a, b):
+    """Time stamps are compared as NUMBERS (-0.0 == 0.0: np.unique may keep either zero),
+    element by element, shapes included."""
+    a = np.asarray(a, dtype=float)
+    b = np.asarray(b, dtype=float)
+    return a.shape == b.shape and bool((a == b).all())
 from . import fworld as FW
 
 SD_TABLES = ['trajectory_sd', 'gyro', 'gyro_sd', 'accel', 'accel_sd']
@@ -45,7 +53,7 @@ def check_spies(sc, m, out, expected):
                       'sample-exactly-once/cross-sensor-order'))
     for s, obj, exp in zip(sc['sensors'], m['measurements'], expected):
         used = [t for (t, shp) in obj.spy_log if shp is not None]
-        if not same_bits(used, exp):
+        if not same_times(used, exp):
             exp_l = exp.tolist()
             missing = [t for t in exp_l if t not in used]
             dup = sorted({t for t in used if used.count(t) > 1})
@@ -76,7 +84,7 @@ def check_c09(sc, m, out):
     inc_idx = np.asarray(m['increments'].index, dtype=float)
     want = np.r_[m['t_start'], inc_idx]
     got = np.asarray(res.trajectory.index, dtype=float)
-    if not same_bits(got, want):
+    if not same_times(got, want):
         if len(got) != len(want):
             d = f"trajectory has {len(got)} rows, expected {len(want)}"
         else:
@@ -101,7 +109,7 @@ def check_c09(sc, m, out):
                               'innovation-exactly-once/missing-table'))
                 continue
             gi = np.asarray(inn.index, dtype=float)
-            if not same_bits(gi, exp):
+            if not same_times(gi, exp):
                 kind = ('dropped' if len(gi) < len(exp) else
                         'extra' if len(gi) > len(exp) else 'stamp')
                 viol.append(V('innovation-exactly-once',
@@ -143,7 +151,7 @@ def check_c10(sc, m, out):
         # starts at the first one and never steps too far (tables normally share one index;
         # identical indices are checked once)
         g = np.asarray(getattr(res, name).index, dtype=float)
-        if any(same_bits(g, h) for h in seen):
+        if any(same_times(g, h) for h in seen):
             continue
         seen.append(g)
         if len(g) == 0 or g[0] != times[0]:
